@@ -1,6 +1,7 @@
 package main
 
 import (
+	"bytes"
 	"encoding/json"
 	"fmt"
 	"math/big"
@@ -198,8 +199,55 @@ func c04Case(w *rt.W, s uint64, cfg int, containers bool) {
 		}
 		fail(key, "json.Marshal -> json.Unmarshal of a document ("+string(b)+")", string(bb), "same document")
 	}
-	// a document written by hand in each form must also be readable
+	// the same documents as another writer lays them out (indented, a space after every colon and comma):
+	// insignificant white space must not change what is read
+	if w.C.Quick() && s%4 != 1 && s%64 != 0 { // quick tier: about a quarter of the container cases take the other layouts
+		w.ClassN("container-roundtrip", 1)
+		return
+	}
+	var ind1, ind2 bytes.Buffer
+	_ = json.Indent(&ind1, b, "", "\t")
+	_ = json.Indent(&ind2, b, " ", "    ")
+	for vi, layout := range [][]byte{ind1.Bytes(), ind2.Bytes(), jsonSpaced(b)} {
+		var again c04Doc
+		err = json.Unmarshal(layout, &again)
+		w.Eval(1)
+		if err != nil || !reflect.DeepEqual(doc, again) {
+			bb, _ := json.Marshal(again)
+			fail("container-roundtrip-other-layout", fmt.Sprintf("json.Unmarshal of the marshalled document in layout %d (%s)", vi, layout), fmt.Sprint(string(bb), " err=", err), "same document")
+		}
+	}
+	var indj bytes.Buffer
+	_ = json.Indent(&indj, mj, "", "  ")
+	for vi, layout := range [][]byte{indj.Bytes(), jsonSpaced(mj), append(append([]byte(" \n"), mj...), "\r\n\t "...)} {
+		ul := size.Size(s + 5)
+		err = ul.UnmarshalJSON(append([]byte(nil), layout...))
+		w.Eval(1)
+		if err != nil || ul != sz {
+			fail("json-roundtrip-other-layout", fmt.Sprintf("MarshalJSON, layout %d -> UnmarshalJSON (%s)", vi, layout), fmt.Sprint(uint64(ul), " err=", err), dec)
+		}
+	}
 	w.ClassN("container-roundtrip", 1)
+}
+
+// jsonSpaced puts a space after every colon and comma outside strings (the layout Python's json.dumps writes).
+func jsonSpaced(b []byte) []byte {
+	out := make([]byte, 0, len(b)+len(b)/4)
+	inStr, esc := false, false
+	for _, c := range b {
+		out = append(out, c)
+		switch {
+		case esc:
+			esc = false
+		case inStr && c == '\\':
+			esc = true
+		case c == '"':
+			inStr = !inStr
+		case !inStr && (c == ':' || c == ','):
+			out = append(out, ' ')
+		}
+	}
+	return out
 }
 
 func init() {
